@@ -1,4 +1,5 @@
 import TextxVerif.Proofs.Kwd
+import TextxVerif.Proofs.CaseKw
 /-!
 # C21 — autokwd matches keyword-like literals only on word boundaries
 
@@ -183,4 +184,110 @@ example : parseText asciiCC ⟨true, false⟩ ⟨defaultWs, false⟩ (.sepPlus .
     ['x', ' ', 'a', 'n', 'd', ' ', 'y'] =
     some [(0, ['x'], ['x']), (2, ['a', 'n', 'd'], ['a', 'n', 'd']), (6, ['y'], ['y'])] := by decide +kernel
 
+/-! ### non-vacuity of `FoldWord` under ignore_case -/
+/-- the ASCII tables: characters equal up to case are both word characters or both not -/
+example : FoldWord asciiCC true := fun _ => foldWordAll_ascii
+/-- … so `C21_boundary` applies with `ignore_case`: `begin` matches `BeGiN` before `(` and not before `x` -/
+example : litTok asciiCC ⟨true, true⟩ false "begin".toList (none, "BeGiN(".toList) =
+    some ((some 'N', ['(']), ("begin".toList, "begin".toList)) := by
+  rw [C21_boundary asciiCC true (fun _ => foldWordAll_ascii) _ (by decide +kernel)]
+  decide +kernel
+example : litTok asciiCC ⟨true, true⟩ false "begin".toList (none, "BeGiNx".toList) = none :=
+  C21_never_glued asciiCC true (fun _ => foldWordAll_ascii) _ (by decide +kernel) false none _ 'x' (by decide +kernel)
+    (by decide +kernel)
+
 end Kwd
+
+/-! ## the full Arpeggio mirror: rule references, recursion, memoization, comments, modifiers
+
+`Kwd.PE` is a small fragment.  The statement "same model when no keyword is glued" is lifted here to the
+mirror of Arpeggio's interpreter (`Peg.Arp`, the one C20 runs on the *dumped real parser models*):
+`Peg.Case.Lang` is a parser model with its tokens, `Lang.autokwd` is what `autokwd=True` changes in it (the
+`StrMatch` of a keyword-like literal becomes a `KeywordMatch`: a regex match node for `keyword\b` whose value is
+still the grammar literal), `kwRx` runs those patterns on the Lean regex engine. -/
+namespace Peg.Case
+open Re
+
+/-- `Lang.autokwd` is `visit_str_match` token by token: the token of `Kwd.compileLit` (the function the C21
+correspondence compares with the live `visit_str_match` for every literal) -/
+def ofKwdTok : Kwd.Tok → Tok
+  | .str l ic => .str l ic
+  | .re _ (some l) => .kw l
+  | _ => .re
+
+theorem C21_autokwdTok_compileLit (cc : CharClasses) (ic : Bool) (l : List Char) :
+    autokwdTok cc ic (.str l ic) = ofKwdTok (Kwd.compileLit cc ⟨true, ic⟩ l) ∧
+      Tok.str l ic = ofKwdTok (Kwd.compileLit cc ⟨false, ic⟩ l) := by
+  simp only [autokwdTok, Kwd.compileLit, Bool.true_and, Bool.false_and]
+  constructor
+  · split <;> rfl
+  · rfl
+
+/-- **Token tables.**  On an input in which no keyword-like literal is immediately followed by a word
+character, the token table of the `autokwd` meta-model — keyword rows computed by the regex engine on
+`keyword\b` (`C21_boundary`) — is the token table of the meta-model without `autokwd`. -/
+theorem C21_same_tokTable (cc : CharClasses) (ic : Bool) (hfw : Kwd.FoldWord cc ic) (rx0 : Rx) (toks : Array Tok)
+    (hu : UniformIc ic toks) (inp : Array Char) (h : NoGluedKeywordIn cc ic toks inp) :
+    tokTable cc.fold (kwRx cc ic toks rx0) (toks.map (autokwdTok cc ic)) inp = tokTable cc.fold rx0 toks inp :=
+  tokTable_autokwd cc ic hfw rx0 toks hu inp h
+
+/-- **Same model, full interpreter.**  For every parser model `L` (any rule graph: references, recursion,
+repetitions with separators, unordered groups, predicates, rule modifiers `ws` / `skipws` / `eolterm` /
+suppress, a comment model, memoization on or off), every regex engine `rx0` for its other regex tokens and
+every input without a glued keyword, `parser.parse` of the `autokwd` meta-model has the same outcome as
+without `autokwd`: the same parse tree (node identities, positions, lengths) or the same furthest-failure
+position, for every fuel; and the terminal values read off any tree are the same. -/
+theorem C21_same_run (cc : CharClasses) (ic : Bool) (hfw : Kwd.FoldWord cc ic) (rx0 : Rx) (L : Lang)
+    (hu : UniformIc ic L.toks) (inp : Array Char) (h : NoGluedKeywordIn cc ic L.toks inp) (fuel : Nat) :
+    (L.autokwd cc ic).run cc.fold (kwRx cc ic L.toks rx0) inp fuel = L.run cc.fold rx0 inp fuel ∧
+      ∀ v, values (L.autokwd cc ic).toks inp v = values L.toks inp v := by
+  refine ⟨?_, fun v => ?_⟩
+  · exact Peg.run_congrK (similarK_autokwd cc ic hfw rx0 L hu inp h) ⟨fun _ _ => trivial, fun _ _ _ _ _ => trivial⟩
+      L.top L.skipws trivial fuel
+  · unfold values
+    apply List.map_congr_left
+    intro x _
+    exact termValue_autokwd cc ic L.toks inp x.1 x.2.1 x.2.2
+
+/-- furthest-failure position of a rejected input -/
+def _root_.Peg.Outcome.failPos : Outcome → Option Nat
+  | .noMatch p => some p
+  | _ => none
+
+/-! ### non-vacuity: `Model: 'ab' n=ID;` in the mirror, ID run by the regex engine -/
+
+def abLang : Lang :=
+  { nodes := #[{ kind := .seq, kids := [1, 2], root := true }, { kind := .str, tok := 1 }, { kind := .re, tok := 2 }],
+    comments := none, memo := true, toks := #[.other, .str "ab".toList false, .re],
+    top := 0, skipws := true, ws := [' ', '\n'] }
+
+def idRx : Rx := fun _ inp p => reRx asciiCC Gen.Regexes.ID inp p
+
+/-- `autokwd` turns the literal into a keyword match -/
+example : (abLang.autokwd asciiCC false).toks = #[.other, .kw "ab".toList, .re] ∧
+    ((abLang.autokwd asciiCC false).nodes.map (·.kind)) = #[.seq, .re, .re] := by
+  constructor <;> decide +kernel
+
+theorem abLang_uniform : UniformIc false abLang.toks := uniformIc_sound (by decide)
+
+theorem ab_x_noGlued : NoGluedKeywordIn asciiCC false abLang.toks "ab x".toList.toArray :=
+  noGluedKeywordInB_sound (by decide +kernel)
+
+/-- through the theorem … -/
+example : (abLang.autokwd asciiCC false).run asciiCC.fold (kwRx asciiCC false abLang.toks idRx) "ab x".toList.toArray 5 =
+    abLang.run asciiCC.fold idRx "ab x".toList.toArray 5 :=
+  (C21_same_run asciiCC false (fun h => nomatch h) idRx abLang abLang_uniform _ ab_x_noGlued 5).1
+
+/-- … about a successful parse -/
+example : (abLang.run asciiCC.fold idRx "ab x".toList.toArray 5).leaves = some [(1, 0, 2), (2, 3, 1)] := by
+  decide +kernel
+
+/-- The hypothesis is needed in the mirror as well: `abx` is accepted without `autokwd` (`ab`, `x`) and
+rejected with it. -/
+theorem C21_run_glued_differs :
+    (abLang.run asciiCC.fold idRx "abx".toList.toArray 5).leaves = some [(1, 0, 2), (2, 2, 1)] ∧
+    ((abLang.autokwd asciiCC false).run asciiCC.fold (kwRx asciiCC false abLang.toks idRx)
+      "abx".toList.toArray 5).failPos = some 0 := by
+  constructor <;> decide +kernel
+
+end Peg.Case
